@@ -688,12 +688,9 @@ def check_fix_case(ctx, header_parser, root, relpath, name, text, edits, request
 
 	if not direct:
 		ctx.count('fix:correspondence-only-case')
-		with open(path, 'rb') as infile:
-			once_bytes = infile.read()
 		fix_pass(ctx, header_parser, path, case)
 		with open(path, 'rb') as infile:
 			requests.append((f'fix {sx(once)}', f'ok {sx(infile.read().decode("utf8"))}', case, 'file contents after the second pass'))
-		del once_bytes
 		return
 	if names1 != names0:
 		ctx.fail('property', f'{name}: --fix-indents changed the directory listing: {names0!r} -> {names1!r}', dict(case, listing=names1))
@@ -856,7 +853,7 @@ def run(ctx):
 	check_whitespace_set(ctx)
 
 	# order axioms: every synthetic class is always in the sample, the rest is drawn from the tree
-	size = ctx.scale(80, 300)
+	size = ctx.scale(120, 300)
 	synthetic_part = synthetic if len(synthetic) <= size * 2 // 3 else rng.sample(synthetic, size * 2 // 3)
 	sample = list(synthetic_part) + rng.sample(tree, min(len(tree), size - len(synthetic_part)))
 	rng.shuffle(sample)
@@ -881,7 +878,7 @@ def run(ctx):
 		with open(os.path.join(base, relpath), 'rt', encoding='utf8') as infile:
 			if re.search(r'^\s*#\s*define.*\\\n.*\\\n', infile.read(), flags=re.M):
 				with_macros.append(relpath)
-	fix_files = rng.sample(files, ctx.scale(60, 700)) + with_macros
+	fix_files = rng.sample(files, ctx.scale(120, 700)) + with_macros
 	check_fix_indents(ctx, header_parser, base, fix_files)
 	check_cli_fix(ctx, base, rng.sample([relpath for relpath in files if relpath.startswith('src/catapult/utils/')], 5))
 
